@@ -45,6 +45,7 @@ def gen_history(rng, B=None, ops_len=None):
         crops.vary_sow_call(rng, sow)
     else: sow['spelling'] = 'tuple'
     ops = [new]
+    if rng.random() < 0.15: ops += [{'op': 'emptydir'}, {'op': 'query'}]   # only the directory skeleton exists: not sown
     if rng.random() < 0.25: ops.append({'op': 'query'})                     # progress asked before anything is sown
     ops += [sow, {'op': 'query'}]
     if rng.random() < 0.3: ops.append({'op': 'stalequery'})                 # ... and through a handle made before the sow
@@ -74,7 +75,7 @@ def gen_history(rng, B=None, ops_len=None):
     ops += [{'op': 'growmissing'}, {'op': 'query'}]
     if rng.random() < 0.3:
         ops += [{'op': 'reap'}, {'op': 'query'}]                            # a complete reap removes the crop: nothing is ready any more
-    return {'sweep': sw, 'kind': kind, 'ops': ops, 'B': B}
+    return {'sweep': sw, 'kind': kind, 'ops': ops, 'B': B, 'relative': rng.random() < 0.25}
 
 
 def cases(ctx):
@@ -94,6 +95,7 @@ def cases(ctx):
     for h in out:
         ctx.count('B', h['B']); ctx.count('len', len(h['ops']))
         for o in h['ops']: ctx.count('op', o['op'] + ('+fail' if o.get('fail') else ''))
+        ctx.count('parent_dir', 'relative' if h.get('relative') else 'absolute')
     return out
 
 
